@@ -39,7 +39,8 @@ META = {
         'ref_on-goto:select', 'ref_on-goto:fallthrough-zero', 'ref_on-goto:fallthrough-beyond', 'ref_on-gosub:select',
         'ref_if:else', 'ended_err1', 'ended_err3', 'ended_err30', 'ended_err26', 'ended_err29', 'ended_err6',
         'ended_end', 'budget_exhausted', 'gen_early_exit_goto', 'gen_for_negative_step', 'gen_for_single_counter',
-        'gen_for_zero_step', 'directed_cases', 'if_table_programs', 'gen_nested_if_goto_form', 'gen_nested_if_line_form']},
+        'gen_for_zero_step', 'directed_cases', 'if_table_programs', 'gen_nested_if_goto_form', 'gen_nested_if_line_form',
+        'gen_for_after_then_or_else', 'gen_while_after_then_or_else', 'gen_for_after_then_or_else_inside_for']},
     'timeout': {'quick': 600, 'thorough': 7200},
 }
 
@@ -76,7 +77,8 @@ def execute(prog, budget, harness):
 def run_and_judge(prog, budget, res, harness, prefix='', nontrivial=None, per_code=True, rekey=None):
     """Run, compare with R-CTRL, report into res. Returns the Verdict (or None after an internal error)."""
     lines, direct = G.to_basic(prog)
-    case = {'lines': lines, 'direct': direct, 'prog': {'lines': prog['lines'], 'direct': prog.get('direct')}}
+    case = {'lines': lines, 'direct': direct, 'prog': {'lines': prog['lines'], 'direct': prog.get('direct'),
+                                                       'indents': prog.get('indents'), 'sep': prog.get('sep')}}
     key = b'\n'.join(lines) + b'\n' + (direct or b'')
     try:
         out, broke, boundaries = execute(prog, budget, harness)
@@ -191,6 +193,24 @@ DIRECTED = [
     ('if:line-number-forms',
      ['10 IF 1=2 THEN 100 ELSE 30', '20 PRINT "no"', '30 IF 1=1 GOTO 50', '40 PRINT "no"', '50 IF 1=1 THEN 70', '60 PRINT "no"',
       '70 PRINT "end":END', '100 PRINT "wrong"'], b'end\r\n'),
+    ('loop-after-then:for-inside-for', ['10 FOR I%=1 TO 2', '20 IF I%=1 THEN FOR J%=1 TO 2:PRINT I%;J%:NEXT J%', '30 PRINT "x";I%', '40 NEXT I%',
+                                        '50 PRINT "e"'], b' 1  1 \r\n 1  2 \r\nx 1 \r\nx 2 \r\ne\r\n'),
+    ('loop-after-then:for-inside-skipped-for', ['10 FOR I%=2 TO 1', '20 IF 1=1 THEN FOR J%=1 TO 2:PRINT "b":NEXT', '30 NEXT', '40 PRINT "e"'],
+     b'e\r\n'),
+    ('loop-after-else:for-inside-skipped-for', ['10 FOR I%=2 TO 1', '20 IF 1=2 THEN PRINT "t" ELSE FOR J%=1 TO 2:PRINT "b":NEXT J%', '30 NEXT I%',
+                                                '40 PRINT "e"'], b'e\r\n'),
+    ('loop-after-else:while-inside-while',
+     ['10 W%=0:WHILE W%<2:W%=W%+1', '20 IF W%=5 THEN PRINT "t" ELSE WHILE V%<W%:V%=V%+1:PRINT W%;V%:WEND', '30 WEND', '40 PRINT "e"'],
+     b' 1  1 \r\n 2  2 \r\ne\r\n'),
+    ('loop-after-then:while-inside-false-while', ['10 WHILE 0', '20 IF 1=1 THEN WHILE 1:PRINT "b":WEND', '30 WEND', '40 PRINT "e"'], b'e\r\n'),
+    ('loop-after-then:while-inside-for-and-for-inside-while',
+     ['10 FOR I%=1 TO 2:V%=0', '20 IF I%=2 THEN WHILE V%<2:V%=V%+1:PRINT "w";V%:WEND', '30 NEXT',
+      '40 W%=0:WHILE W%<2:W%=W%+1', '50 IF W%=1 THEN PRINT "t" ELSE FOR J%=1 TO 2:PRINT "f";J%:NEXT', '60 WEND:PRINT "e"'],
+     b'w 1 \r\nw 2 \r\nt\r\nf 1 \r\nf 2 \r\ne\r\n'),
+    ('loop-after-then:false-condition-skips-the-whole-loop',
+     ['10 FOR I%=1 TO 2', '20 IF I%=3 THEN FOR J%=1 TO 2:PRINT "no":NEXT J%', '30 PRINT I%', '40 NEXT', '50 PRINT "e"'], b' 1 \r\n 2 \r\ne\r\n'),
+    ('layout:blanks-after-line-number-and-around-colons',
+     ['10     FOR I%=1 TO 2 : FOR J%=2 TO 1 :PRINT "no" : NEXT :  PRINT I% : NEXT', '20   PRINT "e"'], b' 1 \r\n 2 \r\ne\r\n'),
     ('mismatch:next-without-for', ['10 PRINT "a":NEXT I%', '20 PRINT "no"'], b'a\r\nNEXT without FOR in 10' + E),
     ('mismatch:next-without-for', ['10 PRINT "a"', '20 NEXT', '30 PRINT "no"'], b'a\r\nNEXT without FOR in 20' + E),
     ('mismatch:next-in-subroutine-of-loop', ['10 FOR I%=1 TO 2', '20 GOSUB 100', '30 NEXT', '40 END', '100 PRINT "S"', '110 NEXT'],
